@@ -14,10 +14,13 @@ static void *vp_watch_ptr[VP_WATCH_MAX];
 static int vp_watch_freed[VP_WATCH_MAX];
 static int vp_nwatch;
 
-static void *vp_malloc(size_t n) { void *p = malloc(n ? n : 1); if (p) { vp_outstanding++; vp_allocs++; } return p; }
-static void *vp_calloc(size_t a, size_t b) { void *p = calloc(a ? a : 1, b ? b : 1); if (p) { vp_outstanding++; vp_allocs++; } return p; }
+static void *vp_last_alloc; static size_t vp_last_size;
+static void (*vp_free_cb)(void *p);
+static void *vp_malloc(size_t n) { void *p = malloc(n ? n : 1); if (p) { vp_outstanding++; vp_allocs++; vp_last_alloc = p; vp_last_size = n; } return p; }
+static void *vp_calloc(size_t a, size_t b) { void *p = calloc(a ? a : 1, b ? b : 1); if (p) { vp_outstanding++; vp_allocs++; vp_last_alloc = p; vp_last_size = a * b; } return p; }
 static void vp_free(void *p) {
     if (!p) return;
+    if (vp_free_cb) vp_free_cb(p);
     for (int i = 0; i < vp_nwatch; i++) if (vp_watch_ptr[i] == p) vp_watch_freed[i]++;
     vp_outstanding--; vp_frees++;
     free(p);
